@@ -166,7 +166,8 @@ def r112(ctx):
         if b.d.krate == "vls_persist" and b.name.endswith("Persist>::update_channel") and "KVVPersister" in b.name:
             bv = fnview(ctx, b)
             _agg_from(ctx, b, bv, VP + "model::ChannelEntry",
-                      {"enforcement_state": "enforcement_state", "channel_setup": "setup", "id": "id"}, "Channel")
+                      {"enforcement_state": "enforcement_state", "channel_setup": "setup", "id": "id",
+                       "channel_value_satoshis": "channel_value_sat"}, "Channel")
     # ChannelEntry -> CoreChannelEntry
     cb = p.fn(f"{VP}model::<impl std::convert::From<{VP}model::ChannelEntry> for {LS}persist::model::ChannelEntry>::from")
     _agg_from(ctx, cb, fnview(ctx, cb), LS + "persist::model::ChannelEntry",
